@@ -85,6 +85,11 @@ PROPOSED_FINDINGS = [
      "witness": {"src": "self.r.prepare(self.a.get() + 1.5)"},
      "what": "a float constant in the method body is not refused: `r.prepare(a + 1.5)` is emitted as `r<=a+1.5;` (a Verilog real, rounded on assignment) "
              "while the Python method raises TypeError in Wire.prepare (float & int); only constructor constants are checked for int-ness"},
+    {"id": "C02-guarded-wildcard", "property": "C02", "status": "known", "anchor": "py4hw/transpilation/python2verilog_transpilation.py:381",
+     "class_expr": "r.get('construct')=='match-guarded-wildcard' and r.get('kind') in ('mismatch','x-after-write','x-state','x-consequence','accepted-unsupported')",
+     "witness": {"src": "match a & 3:\n case 0: r.prepare(7)\n case _ if a > 0: r.prepare(5)\n case _: r.prepare(2)", "history": [{"a": 1}], "signal": "r", "sim": 5, "verilog": 2},
+     "what": "`case _ if guard:` is taken as the Verilog `default:` with the guard silently dropped (ReplaceMatch tests the wildcard before looking "
+             "at c.guard), and a later `case _:` overwrites it: a=1 gives Python 5, Verilog 2"},
     {"id": "C02-new-attr-uninit", "property": "C02", "status": "known", "anchor": "py4hw/transpilation/python2verilog_transpilation.py:596",
      "class_expr": "('new-attr' in r.get('reasons', []) or 'state-in-comb' in r.get('reasons', []) or 'port-as-value' in r.get('reasons', []) "
                    "or 'neg-const' in r.get('reasons', [])) and r.get('kind') in ('mismatch','x-after-write','x-state','x-consequence','unparseable','v-error')",
